@@ -11,6 +11,9 @@ import json, os, subprocess, sys, time, shutil
 ENV = dict(os.environ, GOFLAGS='-mod=mod', GOPROXY='off', GOSUMDB='off', GOTOOLCHAIN='local')
 
 def sh(cmd, cwd=None, timeout=None):
+    if cmd.startswith('go test'):
+        # the repository's tests bind fixed loopback ports: give every run its own network namespace
+        cmd = "unshare -n sh -c " + repr("ip link set lo up; " + cmd)
     return subprocess.run(cmd, shell=True, cwd=cwd, env=ENV, capture_output=True, text=True, timeout=timeout)
 
 def main():
